@@ -396,6 +396,7 @@ type replayFile struct {
 	Site     string            `json:"site,omitempty"`
 	Tags     []string          `json:"tags,omitempty"`
 	Known    string            `json:"known,omitempty"`
+	Sched    bool              `json:"schedule_dependent,omitempty"`
 	Observe  []string          `json:"observe,omitempty"`
 	Outcome  string            `json:"outcome,omitempty"`
 	Readable string            `json:"readable,omitempty"`
@@ -539,7 +540,7 @@ func checkMain(id, tier string) int {
 			for _, v := range rs.violations {
 				nReplay++
 				rf := replayFile{Property: id, Unit: ui, Run: run.Name, Entry: run.Entry, Params: run.Params, Inputs: v.Inputs,
-					Label: v.Label, Kind: v.Kind, Site: v.Site, Tags: v.Tags, Known: v.Known, Readable: readable(v.Inputs)}
+					Label: v.Label, Kind: v.Kind, Site: v.Site, Tags: v.Tags, Known: v.Known, Sched: v.Sched, Readable: readable(v.Inputs)}
 				pending = append(pending, rf)
 			}
 			// differential traces (sampled by seed)
@@ -606,6 +607,12 @@ func checkMain(id, tier string) int {
 					if l == rf.Label {
 						confirmed = true
 					}
+				}
+				// natively the goroutine schedule cannot be dictated: a schedule-dependent
+				// counterexample is confirmed when some randomised native schedule fails an
+				// obligation of the same harness, whichever it is
+				if rf.Sched && len(nr.Failed) > 0 {
+					confirmed = true
 				}
 			case "panic":
 				confirmed = nr.Result == "panic"
